@@ -15,6 +15,7 @@ declared names.  Hence (`frozen_code_insensitive`) two stores that agree on the 
 result and the same new frames, whatever the older frames — the outer variables — hold.
 -/
 import NoulithModel.Theorems.C17Cut
+import NoulithModel.Theorems.C17FirstOrder
 
 namespace Noulith.C17Insensitive
 open Noulith Noulith.Core Noulith.C17Frames Noulith.C17Cut
@@ -644,7 +645,8 @@ theorem c_assign {k : Nat} (ih : Pres2 T n k) {S S' : List String} {x : String} 
       simp only [cut_frames, cutF_size, assignVar_cut n st1.frames g1.wf x v _ env (g1.sure x hxS')]
       cases ha : assignVar st1.frames (st1.frames.size + 1) env x v with
       | some fs =>
-        have pw := p2_write (nm := True) (pr.toG g (isVal_val v)) (assignVar_step st1.frames g1.wf x v _ env fs ha)
+        have pw := p2_write (nm := True) (pr.toG g (isVal_val v)) (g1.sure x hxS')
+          (assignVar_step st1.frames g1.wf x v _ env fs ha)
         exact ⟨by eqok2, pr.seq (pw.imp (fun _ => trivial))⟩
       | none => exact ⟨by eqok2, pr.imp (fun h => absurd h (not_isVal_thrown _))⟩
     | _ => exact ⟨by eqok2, pr⟩
@@ -680,8 +682,9 @@ theorem c_opassign {k : Nat} (ih : Pres2 T n k) {S S' : List String} {x opn : St
         | some fs =>
           dsimp only
           have wd := dropVar_step st1.frames g1.wf x _ env fs hdv
-          have pd : P2 n S' st1 { st1 with frames := fs } env True := p2_write g1' wd
-          have g2k : G T n S { st1 with frames := fs } env := (p2_write (nm := True) g1 wd).toG g1 trivial
+          have pd : P2 n S' st1 { st1 with frames := fs } env True := p2_write g1' (g1.sure x hxS') wd
+          have g2k : G T n S { st1 with frames := fs } env :=
+            (p2_write (nm := True) g1 (g1.sure x hxS') wd).toG g1 trivial
           have g2 : G T n S' { st1 with frames := fs } env := pd.toG g1' trivial
           cases applyOp opn old v with
           | raise => exact ⟨by eqok2, (pr.seq pd).imp (fun h => absurd h (not_isVal_thrown _))⟩
@@ -691,7 +694,7 @@ theorem c_opassign {k : Nat} (ih : Pres2 T n k) {S S' : List String} {x opn : St
             | none => exact ⟨by eqok2, (pr.seq pd).imp (fun h => absurd h (not_isVal_thrown _))⟩
             | some fs2 =>
               have pw : P2 n S' { st1 with frames := fs } { st1 with frames := fs2 } env True :=
-                p2_write g2 (assignVar_step fs g2k.wf x nv _ env fs2 ha)
+                p2_write g2 (g2k.sure x hxS') (assignVar_step fs g2k.wf x nv _ env fs2 ha)
               exact ⟨by eqok2, ((pr.seq pd).seq pw).imp (fun _ => trivial)⟩
       | _ => exact ⟨by eqok2, pr⟩
   · exact absurd hok (by simp)
@@ -770,7 +773,8 @@ theorem builtinAt_get {i : Nat} {st : State} (h : builtinAt T i = true) (htab : 
 
 theorem p2_frames_eq {S : List String} {st st1 : State} {env : Nat} {nm : Prop} (g : G T n S st env)
     (hf : st1.frames = st.frames) (ht : st1.frozenTab = st.frozenTab) : P2 n S st st1 env nm := by
-  refine ⟨⟨by rw [hf]; exact ExtF.refl _, ht⟩, by unfold WF; rw [hf]; exact g.wf, fun _ x hx => ?_⟩
+  refine ⟨⟨by rw [hf]; exact ExtF.refl _, ht⟩, by unfold WF; rw [hf]; exact g.wf, fun _ x hx => ?_,
+    fun y _ => by rw [hf]; exact SameAt.refl _ _ _⟩
   have := g.sure x hx
   unfold DeclAbove at this ⊢
   rw [hf]; exact this
@@ -817,7 +821,8 @@ theorem newFrame_cut' {S : List String} {st : State} {env : Nat} (g : G T n S st
 theorem g_clone {S : List String} {st st2 : State} {env : Nat} {p : Pat} {v : Val} {ok : Bool}
     (g : G T n S st env)
     (hd : declarePat (patDepth p + 1) (newFrame st env).1 (newFrame st env).2 p v = (ok, st2)) :
-    Ext st st2 ∧ G T n S st2 (newFrame st env).2 ∧ (ok = true → G T n (S ++ Pat.idents p) st2 (newFrame st env).2) := by
+    (Ext st st2 ∧ OldKept st st2 n []) ∧ G T n S st2 (newFrame st env).2 ∧
+      (ok = true → G T n (S ++ Pat.idents p) st2 (newFrame st env).2) := by
   have hstep := declarePat_step (patDepth p + 1) (newFrame st env).1 (newFrame st env).2 p v
   rw [hd] at hstep
   obtain ⟨hfs, htab1, _, hdecl⟩ := hstep
@@ -832,7 +837,9 @@ theorem g_clone {S : List String} {st st2 : State} {env : Nat} {p : Pat} {v : Va
     obtain ⟨fr', hfr', _, hn'⟩ := hxN.2 _ _ hfr
     exact DeclAbove.ext hfs.ext ⟨i, fr', C17Preserve.onChain_new hc, hni, hfr', hn' x hdx⟩
   have htab : T <+: st2.frozenTab := by rw [htab1]; exact g.tab
-  refine ⟨hx, ⟨hfs.wf hwfN, hge, hlt, hsure, htab⟩, fun hok => ⟨hfs.wf hwfN, hge, hlt, ?_, htab⟩⟩
+  have hold : OldKept st st2 n [] := fun y _ =>
+    (push_sameAt y st.frames _ n (Nat.le_trans g.ge (Nat.le_of_lt g.lt))).trans (hfs.below n hge y)
+  refine ⟨⟨hx, hold⟩, ⟨hfs.wf hwfN, hge, hlt, hsure, htab⟩, fun hok => ⟨hfs.wf hwfN, hge, hlt, ?_, htab⟩⟩
   intro x hxS
   rcases List.mem_append.mp hxS with h | h
   · exact hsure x h
@@ -841,9 +848,9 @@ theorem g_clone {S : List String} {st st2 : State} {env : Nat} {p : Pat} {v : Va
 
 /-- leaving the fresh scope -/
 theorem p2_exit {S SI SO : List String} {st st2 st3 : State} {env ee : Nat} {nmI nm : Prop}
-    (g : G T n S st env) (hx : Ext st st2) (inner : P2 n SO st2 st3 ee nmI) (_h : SI = SI) :
+    (g : G T n S st env) (hx : Ext st st2 ∧ OldKept st st2 n []) (inner : P2 n SO st2 st3 ee nmI) (_h : SI = SI) :
     P2 n S st st3 env nm :=
-  ⟨hx.trans inner.ext, inner.wf, fun _ => g.sure.ext (hx.trans inner.ext)⟩
+  ⟨hx.1.trans inner.ext, inner.wf, fun _ => g.sure.ext (hx.1.trans inner.ext), hx.2.trans inner.old⟩
 
 /-- run `c` in the fresh child scope in which `p` was bound to `v` (`catch`, `switch` arm) -/
 theorem c_clone_body {k : Nat} (ih : Pres2 T n k) {S Sc : List String} {p : Pat} {v : Val} {c : Expr}
@@ -861,7 +868,7 @@ theorem c_clone_fail {S : List String} {p : Pat} {v : Val} {st st2 : State} {env
     (hd : declarePat (patDepth p + 1) (newFrame st env).1 (newFrame st env).2 p v = (false, st2)) :
     P2 n S st st2 env nm := by
   obtain ⟨hx, gk, _⟩ := g_clone g hd
-  exact ⟨hx, gk.wf, fun _ => g.sure.ext hx⟩
+  exact ⟨hx.1, gk.wf, fun _ => g.sure.ext hx.1, hx.2⟩
 
 /-- the first steps of every construct that opens a scope, on the cut store -/
 theorem clone_cut_eq {S : List String} {st : State} {env : Nat} (g : G T n S st env) (p : Pat) (v : Val) :
@@ -960,7 +967,8 @@ theorem c_switch {k : Nat} (ih : Pres2 T n k) {S S' : List String} {sc : Expr} {
 /-! ### loops -/
 
 theorem g_newFrame {S : List String} {st : State} {env : Nat} (g : G T n S st env) :
-    Ext st (newFrame st env).1 ∧ G T n S (newFrame st env).1 (newFrame st env).2 := by
+    (Ext st (newFrame st env).1 ∧ OldKept st (newFrame st env).1 n []) ∧
+      G T n S (newFrame st env).1 (newFrame st env).2 := by
   have hd : declarePat (patDepth Pat.underscore + 1) (newFrame st env).1 (newFrame st env).2 .underscore .null
       = (true, (newFrame st env).1) := by simp [declarePat, patDepth]
   obtain ⟨hx, gk, _⟩ := g_clone g hd
@@ -1410,5 +1418,154 @@ theorem pres2_all (T : List Val) (n : Nat) : ∀ k, Pres2 T n k := by
   | zero => exact Pres2.zero T n
   | succ j ih => exact ih.step
 
+
+/-! ## the theorems -/
+
+/-- **Frozen code reads only local frames.**  `e`: first-order code all of whose identifiers are surely
+declared locally (`localOk`; its other names have become `Frozen` nodes).  `n`: a frame id such that every
+name of `S` has a declaration on the scope chain in a frame `≥ n` (for a function body: the call frame).
+Then evaluating `e` after FORGETTING the contents of all frames older than `n` gives the same result, and
+the same state up to that forgetting: nothing older than `n` is ever looked at. -/
+theorem frozen_code_reads_only_local_frames (T : List Val) (n : Nat) (S S' : List String) (e : Expr)
+    (st : State) (env fuel : Nat) (hok : localOk T S e = some S')
+    (hwf : WF st) (hge : n ≤ env) (hlt : env < st.frames.size) (hsure : Sure S st env n)
+    (htab : T <+: st.frozenTab) :
+    eval fuel (cut n st) env e = ((eval fuel st env e).1, cut n (eval fuel st env e).2) :=
+  ((pres2_all T n fuel).ev S S' e st env hok ⟨hwf, hge, hlt, hsure, htab⟩).1
+
+/-- **…and writes only local frames**: no variable of a frame older than `n` is changed (in particular no
+outer variable is assigned), the store only grows -/
+theorem frozen_code_writes_only_local_frames (T : List Val) (n : Nat) (S S' : List String) (e : Expr)
+    (st : State) (env fuel : Nat) (hok : localOk T S e = some S')
+    (hwf : WF st) (hge : n ≤ env) (hlt : env < st.frames.size) (hsure : Sure S st env n)
+    (htab : T <+: st.frozenTab) :
+    OldKept st (eval fuel st env e).2 n [] ∧ Ext st (eval fuel st env e).2 := by
+  have h := ((pres2_all T n fuel).ev S S' e st env hok ⟨hwf, hge, hlt, hsure, htab⟩).2
+  exact ⟨h.old, h.ext⟩
+
+/-- two stores that agree on the frames `≥ n` (and on the parent links, the output and the table of frozen
+values) are the same after `cut n` -/
+theorem cut_eq_of_agree (n : Nat) (st₁ st₂ : State) (hsz : st₁.frames.size = st₂.frames.size)
+    (hnew : ∀ i, n ≤ i → st₁.frames[i]? = st₂.frames[i]?)
+    (hold : ∀ i fr₁ fr₂, i < n → st₁.frames[i]? = some fr₁ → st₂.frames[i]? = some fr₂ → fr₁.parent = fr₂.parent)
+    (hout : st₁.out = st₂.out) (htab : st₁.frozenTab = st₂.frozenTab) : cut n st₁ = cut n st₂ := by
+  have hf : cutF n st₁.frames = cutF n st₂.frames := by
+    apply Array.ext_getElem?
+    intro i
+    rw [cutF_get, cutF_get]
+    by_cases hi : n ≤ i
+    · rw [hnew i hi]
+    · have hlt : i < n := by omega
+      cases h1 : st₁.frames[i]? with
+      | none =>
+        have : st₂.frames[i]? = none := by
+          apply Array.getElem?_eq_none
+          have := Array.getElem?_eq_none_iff.mp h1
+          omega
+        rw [this]
+      | some fr₁ =>
+        have hlt1 := getElem?_lt_size h1
+        cases h2 : st₂.frames[i]? with
+        | none =>
+          have := Array.getElem?_eq_none_iff.mp h2
+          omega
+        | some fr₂ =>
+          simp only [Option.map_some, cutFrame, hlt, ↓reduceIte, Option.some.injEq]
+          rw [hold i fr₁ fr₂ hlt h1 h2]
+  obtain ⟨f1, o1, t1⟩ := st₁
+  obtain ⟨f2, o2, t2⟩ := st₂
+  simp only [cut] at hf ⊢
+  simp only at hout htab
+  subst hout htab
+  rw [hf]
+
+/-- **Insensitivity ("free variables are bound eagerly").**  Run the same frozen first-order code in two
+stores that agree on everything from frame `n` on — the call frame and whatever is newer — but may differ
+ARBITRARILY in the variables of all older frames: the outer variables, whatever was assigned to them after
+the freeze.  The results are equal, and so are the final stores from frame `n` on. -/
+theorem frozen_code_insensitive (T : List Val) (n : Nat) (S S' : List String) (e : Expr)
+    (st₁ st₂ : State) (env fuel : Nat) (hok : localOk T S e = some S')
+    (hwf₁ : WF st₁) (hwf₂ : WF st₂) (hge : n ≤ env) (hlt₁ : env < st₁.frames.size) (hlt₂ : env < st₂.frames.size)
+    (hsure₁ : Sure S st₁ env n) (hsure₂ : Sure S st₂ env n)
+    (htab₁ : T <+: st₁.frozenTab) (htab₂ : T <+: st₂.frozenTab)
+    (hcut : cut n st₁ = cut n st₂) :
+    (eval fuel st₁ env e).1 = (eval fuel st₂ env e).1 ∧
+    cut n (eval fuel st₁ env e).2 = cut n (eval fuel st₂ env e).2 := by
+  have h1 := frozen_code_reads_only_local_frames T n S S' e st₁ env fuel hok hwf₁ hge hlt₁ hsure₁ htab₁
+  have h2 := frozen_code_reads_only_local_frames T n S S' e st₂ env fuel hok hwf₂ hge hlt₂ hsure₂ htab₂
+  rw [hcut] at h1
+  have := h1.symm.trans h2
+  exact ⟨(Prod.mk.inj this).1, (Prod.mk.inj this).2⟩
+
+
+/-! ## non-vacuity: the frozen form of the stage-1 example program -/
+
+section Examples
+open Noulith.C17Preserve (stO prog)
+open Noulith.C17Closed (lookOf)
+
+/-- `prog` frozen in the scope `o = 5` (the five occurrences of `o` and the builtin `len` become `Frozen`
+nodes), with the table of frozen values -/
+def frozenProg : Option (Expr × List Val) :=
+  match freezeExpr (lookOf stO 0) ⟨[], []⟩ prog with
+  | .ok (e', s') => some (e', s'.tab)
+  | .error _ => none
+
+/-- the frozen code is local: every remaining identifier is surely declared by the code itself -/
+example : (match frozenProg with | some (e', T) => (localOk T [] e').isSome | none => false) = true := by
+  decide +kernel
+
+/-- the ORIGINAL is not (it reads the outer `o`) -/
+example : (localOk [] [] prog).isSome = false := by decide +kernel
+
+/-- a call frame (frame 1) under an outer scope in which `o` holds `x` -/
+def stCall (x : Int) (T : List Val) : State :=
+  { frames := #[{ vars := [("o", .int x)], parent := none }, { vars := [], parent := some 0 }], out := [],
+    frozenTab := T }
+
+/-- the outer `o` was 5 at freeze time; at use time it is 5 in one store, 99 in the other.  The unfrozen
+program sees the difference, the frozen one does not (kernel-evaluated) … -/
+example : (eval 40 (stCall 5 []) 1 prog).1 matches .val (.list [.int 30, .int 2, .int 35, .int 1]) := by
+  decide +kernel
+example : (eval 40 (stCall 99 []) 1 prog).1 matches .val (.list [.int 594, .int 2, .int 693, .int 1]) := by
+  decide +kernel
+example : (match frozenProg with
+    | some (e', T) => (match (eval 40 (stCall 5 T) 1 e').1, (eval 40 (stCall 99 T) 1 e').1 with
+      | .val (.list [.int 30, .int 2, .int 35, .int 1]), .val (.list [.int 30, .int 2, .int 35, .int 1]) => true
+      | _, _ => false)
+    | none => false) = true := by decide +kernel
+
+theorem wf_stCall (x : Int) (T : List Val) : WF (stCall x T) := by
+  intro i fr p h hp
+  have hi : i < 2 := by have := getElem?_lt_size h; simpa [stCall] using this
+  have : i = 0 ∨ i = 1 := by omega
+  rcases this with rfl | rfl
+  · simp [stCall] at h; subst h; simp at hp
+  · simp [stCall] at h; subst h; simp at hp; omega
+
+/-- … as `frozen_code_insensitive` says it must: its hypotheses hold for these two stores, `n = 1` -/
+example (e' : Expr) (T : List Val) (S' : List String) (hok : localOk T [] e' = some S') (fuel : Nat) :
+    (eval fuel (stCall 5 T) 1 e').1 = (eval fuel (stCall 99 T) 1 e').1 :=
+  (frozen_code_insensitive T 1 [] S' e' (stCall 5 T) (stCall 99 T) 1 fuel hok (wf_stCall _ _) (wf_stCall _ _)
+    (Nat.le_refl _) (by simp [stCall]) (by simp [stCall]) (fun _ h => absurd h (by simp))
+    (fun _ h => absurd h (by simp)) (List.prefix_refl _) (List.prefix_refl _)
+    (cut_eq_of_agree 1 _ _ rfl
+      (fun i hi => by
+        rcases Nat.lt_or_ge i 2 with h | h
+        · have : i = 1 := by omega
+          subst this; rfl
+        · simp [stCall, Array.getElem?_eq_none, h])
+      (fun i fr₁ fr₂ hi h1 h2 => by
+        have : i = 0 := by omega
+        subst this
+        simp [stCall] at h1 h2
+        subst h1 h2; rfl)
+      rfl rfl)).1
+
+end Examples
+
+/-! Not proved: the general bridge "the frozen form of `ScopeOK` code all of whose reads of bound names are
+reads of surely declared names satisfies `localOk` for the table the freeze produced".  `localOk` is
+decidable and is checked on the frozen tree itself (example above). -/
 
 end Noulith.C17Insensitive
